@@ -5,37 +5,54 @@ From C17 Require Import Sem Progs ExecInv ExecTac.
 Section M.
 Variable lims : list nat.
 
-Ltac prgoal HPR :=
+Ltac prA HPR :=
   let i := fresh "i" in let Hi := fresh "Hi" in
   intros i Hi;
+  try match goal with EBR : (_ =? _) = true |- _ => apply Nat.eqb_eq in EBR end;
+  try match goal with EBR : (_ =? _) = false |- _ => apply Nat.eqb_neq in EBR end;
   destruct (HPR i Hi) as (pp & stp & rp & cp & Hth & Hpk & Hns & Hjn & Hom & Hsu);
-  cbn in Hth, Hns, Hjn;
-  unfold PRi; cbn; unfold upd; cbn;
-  try (match goal with |- context [Nat.eqb i ?k] =>
-         let Eik := fresh "Eik" in
-         destruct (Nat.eqb i k) eqn:Eik; [apply Nat.eqb_eq in Eik; subst i|apply Nat.eqb_neq in Eik] end);
-  rewrite ?Hth; cbn;
-  do 4 eexists; (split; [reflexivity|]);
-  (split; [try first [exact Hpk | reflexivity]|]);
-  (split; [try first [exact Hns | reflexivity
+  unfold created, joined in Hns, Hjn;
+  cbn -[Nat.ltb] in Hth, Hns, Hjn, Hom;
+  unfold PRi, created, joined; cbn -[Nat.ltb]; unfold upd; cbn -[Nat.ltb];
+  try (match goal with Hc : thr _ (S (S ?k)) = _ |- _ =>
+         tryif constr_eq k i then fail else
+         (let Eik := fresh "Eik" in
+          destruct (Nat.eq_dec i k) as [Eik|Eik];
+          [subst i; rewrite ?Nat.eqb_refl | rewrite ?(proj2 (Nat.eqb_neq i k) Eik)]) end);
+  try (match goal with Hc : thr ?ss ?x = _ , Hh : thr ?ss ?x = _ |- _ => rewrite Hc in Hh; inversion Hh; subst end);
+  cbn -[Nat.ltb] in Hom;
+  try (match goal with Xo : own _ 0 = Some _ |- _ => rewrite Xo in Hom; try rewrite Xo end);
+  repeat (match goal with Hc : thr ?ss ?x = _ |- context [thr ?ss ?x] => rewrite Hc end); cbn -[Nat.ltb];
+  do 4 eexists; (split; [reflexivity|]).
+Ltac prB :=
+  (split; [first [assumption | reflexivity | match goal with H : prodok ?a _ = true |- prodok ?a _ = true => exact H end]|]).
+Ltac prC :=
+  (split; [match goal with Hns : is_ns _ = _ |- _ => first [exact Hns | reflexivity
                  | (rewrite Hns; f_equal; symmetry; apply Nat.ltb_lt; lia)
                  | (rewrite Hns; f_equal; apply Nat.ltb_ge; lia)
+                 | (rewrite Hns; apply negb_false_iff; apply Nat.ltb_lt; lia)
+                 | (rewrite Hns; apply negb_true_iff; apply Nat.ltb_ge; lia)
                  | (symmetry; apply negb_true_iff; apply Nat.ltb_ge; lia)
-                 | (rewrite Hns; f_equal; destruct (i <? _) eqn:EE1; destruct (i <? _) eqn:EE2; try reflexivity;
-                    [apply Nat.ltb_lt in EE1; apply Nat.ltb_ge in EE2; lia | apply Nat.ltb_ge in EE1; apply Nat.ltb_lt in EE2; lia]) ]|]);
-  (split; [try first [exact Hjn | (intros X; discriminate X) | (intros _; reflexivity)
+                 | (symmetry; apply negb_false_iff; apply Nat.ltb_lt; lia)
+                 | (rewrite Hns; f_equal; apply ltb_S_ne; assumption) ] end|]).
+Ltac prD :=
+  (split; [first [(intros X; discriminate X) | (intros _; reflexivity) | match goal with Hjn : _ -> _ = Done |- _ => first [exact Hjn 
                  | (intros X; apply Hjn; apply Nat.ltb_lt; lia)
-                 | (intros X; apply Hjn; apply Nat.ltb_lt; apply Nat.ltb_lt in X; lia)]|]);
-  (split; [try omfix Hom | try exact Hsu]).
+                 | (intros X; apply Hjn; apply Nat.ltb_lt; apply Nat.ltb_lt in X; lia)
+                 | (intros X; apply Nat.ltb_lt in X; lia) ] end]|]).
+Ltac prE :=
+  (split; [match goal with Hom : _ = Some _ <-> _ |- _ => omfix Hom end | assumption]).
 
-Lemma step_main s pick s' : Rex lims s -> exec P s (LStep 0 pick) = Some s' -> Rex lims s'.
+Lemma step_cons s pick s' : Rex lims s -> exec P s (LStep 1 pick) = Some s' -> Rex lims s'.
 Proof.
-  intros (p0 & st0 & r0 & c0 & l0 & cu0 & p1 & st1 & r1 & c1 & l1 & cu1 & om & Ht0 & Ht1 & HOM & Hn & Hpa & Hf &
+  intros  (p0 & st0 & r0 & c0 & l0 & cu0 & p1 & st1 & r1 & c1 & l1 & cu1 & om & Ht0 & Ht1 & HOM & Hn & Hpa & Hf &
           Hnm0 & Hnm1 & Hok0 & Hok1 & Hx & Hreg & Hc0 & Hc1 & Homok & Homlt & HOT & HownO & Hwq0 & Hwq1 & HwqO &
           Hv0 & Hv1 & Hal & Hq & HG & Hran & Hsub & HPR) E.
   unfold exec in E. rewrite Hf, Hn in E. cbn [Nat.ltb Nat.leb Nat.add negb] in E.
-  rewrite Ht0 in E. cbn [stat] in E.
-  enum0 Hok0 p0 st0 Hnm0; enum1 Hok1 p1 st1 Hnm1; cbn in Hx; try discriminate Hx;
+  rewrite Ht1 in E. cbn [stat] in E.
+  enum0 Hok0 p0 st0 Hnm0;
+  enum1 Hok1 p1 st1 Hnm1;
+  cbn in Hx; try discriminate Hx; try discriminate E;
   cbn in Hreg, Hc0, Hc1, Homok, HOT, Hwq0, Hwq1, Hv0, Hv1, Hq;
   destruct Hreg as (Hr1 & Hr2 & Hr3 & Hr4); destruct Homok as (Hm1 & Hm2); destruct Hq as (Hq1 & Hq2 & Hq3);
   try (specialize (Hr1 eq_refl)); try (destruct (Hr2 eq_refl) as [Hr2a Hr2b]); try (specialize (Hr3 eq_refl));
@@ -44,7 +61,6 @@ Proof.
   (destruct cu0; try discriminate Hc0); (destruct cu1; try discriminate Hc1);
   try (assert (Xom : own s 0 = Some 0) by (apply Hm1; reflexivity));
   try (assert (Xom : own s 0 = Some 1) by (apply Hm2; reflexivity));
-  unfold live, obj_of, M, TM, CV, TC, SHUTDOWN, RUNNING, Q in E; cbn in E;
   do 4 (unfold wake, live, obj_of, M, TM, CV, TC, SHUTDOWN, RUNNING, Q in E; cbn in E; rewrite ?Ht0, ?Ht1, ?Xom, ?HOT, ?Hwq0, ?Hwq1, ?Hv0, ?Hv1, ?Hal, ?Hpa in E;
         repeat rewrite HownO in E by lia; repeat rewrite HwqO in E by lia);
   try (match type of E with context [thr s (S (S ?k))] =>
@@ -59,27 +75,30 @@ Proof.
   try discriminate E.
   all: inversion E; subst s'; clear E.
   all: unfold Rex; do 13 eexists; do 3 (cbn; unfold wake, upd; cbn; rewrite ?Ht0, ?Ht1); cbn.
-  all: (split; [reflexivity|]); (split; [unfold upd; cbn; rewrite ?Ht1; reflexivity|]); (split; [unfold upd; cbn; try reflexivity|]).
+  all: (split; [reflexivity|]); (split; [reflexivity|]); (split; [try reflexivity|]).
   all: (split; [exact Hn|]); (split; [exact Hpa|]); (split; [exact Hf|]); (split; [reflexivity|]); (split; [reflexivity|]).
   all: (split; [reflexivity|]); (split; [reflexivity|]); (split; [reflexivity|]).
   all: (split; [ unfold regok; cbn; (split; [|split; [|split]]); intros XX; try discriminate XX; try split; try reflexivity; try assumption;
                  try (apply Nat.eqb_neq in EBR); try (apply Nat.eqb_eq in EBR); try lia |]).
   all: (split; [reflexivity|]); (split; [reflexivity|]).
   all: (split; [ unfold omok; cbn; split; [omfix Hm1 | omfix Hm2] |]).
-  all: (split; [ first [exact Homlt | (intros tt Xt; cbn in Xt; unfold upd in Xt; cbn in Xt; first [discriminate Xt | (inversion Xt; lia)])] |]).
-  all: (split; [ unfold upd; cbn; rewrite ?HOT; reflexivity |]).
-  all: (split; [ intros rr Hrr; unfold upd; destruct rr as [|[|rr]]; try lia; cbn; apply HownO; lia |]).
-  all: (split; [ unfold upd; cbn; rewrite ?Hwq0, ?Hwq1; reflexivity |]).
-  all: (split; [ unfold upd; cbn; rewrite ?Hwq0, ?Hwq1; reflexivity |]).
-  all: (split; [ intros rr Hrr; unfold upd; destruct rr as [|[|rr]]; try lia; cbn; apply HwqO; lia |]).
-  all: (split; [ unfold upd; cbn; rewrite ?Hv0, ?Hv1; reflexivity |]).
-  all: (split; [ unfold upd; cbn; rewrite ?Hv0, ?Hv1; reflexivity |]).
+  all: (split; [ first [exact Homlt | (intros tt Xt; cbn in Xt; first [discriminate Xt | (inversion Xt; lia)])] |]).
+  all: (split; [ cbn; rewrite ?HOT; reflexivity |]).
+  all: (split; [ intros rr Hrr; destruct rr as [|[|rr]]; try lia; cbn; apply HownO; lia |]).
+  all: (split; [ cbn; rewrite ?Hwq0, ?Hwq1; reflexivity |]).
+  all: (split; [ cbn; rewrite ?Hwq0, ?Hwq1; reflexivity |]).
+  all: (split; [ intros rr Hrr; destruct rr as [|[|rr]]; try lia; cbn; apply HwqO; lia |]).
+  all: (split; [ cbn; rewrite ?Hv0, ?Hv1; reflexivity |]).
+  all: (split; [ cbn; rewrite ?Hv0, ?Hv1; reflexivity |]).
   all: (split; [ exact Hal |]).
-  all: (split; [ unfold qfacts; cbn; unfold upd; cbn; rewrite ?EQ; (split; [|split]); intros XX; try discriminate XX; try assumption; try reflexivity; try congruence |]).
-  all: (split; [ unfold upd; cbn; rewrite ?map_app; cbn; rewrite ?EQ in *; rewrite HG; cbn; rewrite <- ?app_assoc; reflexivity |]).
+  all: (split; [ unfold qfacts; cbn; rewrite ?EQ; (split; [|split]); intros XX; try discriminate XX; try assumption; try reflexivity; try congruence |]).
+  all: (split; [ cbn; rewrite ?map_app; cbn; rewrite ?EQ in *; rewrite HG; cbn; rewrite <- ?app_assoc; reflexivity |]).
   all: (split; [ first [exact Hran | (intros cc tt Hin; apply in_app_or in Hin; destruct Hin as [Hin|[Hin|[]]]; [eapply Hran; exact Hin | inversion Hin; lia])] |]).
   all: refine (conj Hsub _).
-  all: prgoal HPR.
-  Show.
-Abort.
+  all: prA HPR.
+  all: prB.
+  all: prC.
+  all: prD.
+  all: prE.
+Qed.
 End M.
